@@ -41,7 +41,7 @@ BuildObj(class, little, secs0, segs, opts) ==
         shoff == IF nsec = 0 THEN 0 ELSE IF opts.early THEN shoffEarly ELSE dataEnd
         noffs == NameOffs(secs, 1, 1, <<>>)
         tail == Enc("tail", class, little,
-                    [e_type |-> W2(opts.etype), e_machine |-> W2(62), version |-> W4(1), e_entry |-> W8(4096),
+                    [e_type |-> W2(opts.etype), e_machine |-> W2(opts.emachine), version |-> W4(1), e_entry |-> W8(4096),
                      e_phoff |-> W8(phoff), e_shoff |-> W8(shoff), e_flags |-> W4(0), e_ehsize |-> W2(EhSize(class)),
                      e_phentsize |-> W2(IF nseg > 0 THEN phes ELSE 0),
                      e_phnum |-> W2(IF opts.phnum_ext THEN 65535 ELSE nseg),
@@ -68,5 +68,5 @@ BuildObj(class, little, secs0, segs, opts) ==
 
 NullSec == [name |-> <<>>, type |-> 0, flags |-> 0, data |-> <<>>, link |-> 0, info |-> 0, align |-> 0, entsize |-> 0]
 Sec(name, type, data) == [name |-> name, type |-> type, flags |-> 0, data |-> data, link |-> 0, info |-> 0, align |-> 1, entsize |-> 0]
-DefaultOpts == [early |-> TRUE, shstrndx |-> 0, shnum_ext |-> FALSE, phnum_ext |-> FALSE, shstrndx_ext |-> FALSE, etype |-> 3]
+DefaultOpts == [early |-> TRUE, shstrndx |-> 0, shnum_ext |-> FALSE, phnum_ext |-> FALSE, shstrndx_ext |-> FALSE, etype |-> 3, emachine |-> 62]
 =============================================================================
